@@ -29,6 +29,6 @@ def toStringWidth_D : Nat := 3
 /-- vtl_tp_shift has the calendar-aware body (weeks/days through dates) instead of the fixed-limit formula. -/
 def shiftIsCalendar : Bool := true
 /-- _TP_NEXT_PERIOD (fill_time_series) steps with vtl_period_limit. -/
-def nextUsesFixedLimit : Bool := true
+def nextUsesFixedLimit : Bool := false
 
 end VtlModel.Gen.TimeMacros
